@@ -12,14 +12,14 @@ import (
 
 // C10: Sample.Quantile / Sample.IQR. One case = one Sample and a list of q.
 type c10Case struct {
-	Xs     []F64 `json:"xs,omitempty"`
-	Ws     []F64 `json:"ws,omitempty"`
+	Xs []F64 `json:"xs,omitempty"`
+	Ws []F64 `json:"ws,omitempty"`
 	// weighted samples are stored as (value, weight) pairs, so that the generic shrinker
 	// deletes a value together with its weight
 	Ps     [][2]F64 `json:"ps,omitempty"`
-	HasW   bool  `json:"hasw,omitempty"`
-	Sorted bool  `json:"sorted,omitempty"`
-	Qs     []F64 `json:"qs"`
+	HasW   bool     `json:"hasw,omitempty"`
+	Sorted bool     `json:"sorted,omitempty"`
+	Qs     []F64    `json:"qs"`
 	// history: ONE Sample whose backing arrays are overwritten in place between the steps
 	// (hasw applies to the whole history); xs/ws/ps/sorted/qs above are unused then
 	Steps []c10Step `json:"steps,omitempty"`
